@@ -18,7 +18,18 @@
 (* Opt(r, fuel) is <<"ok", r'>>, <<"err">> (the optimiser rejects the term) or  *)
 (* <<"unk">> (the transcription ran out of fuel, or a compile-time evaluation    *)
 (* left the modelled arithmetic).  C04 on the model: MC_ClassicOpt.              *)
+(*                                                                              *)
+(* Variant = "faithful" is the optimiser as it is.  The other values are three  *)
+(* unsound optimisers (two of them are what the code did before b9fb1d6 /        *)
+(* 8cba968 and what a seeded change did): TLC refutes each of them on the same   *)
+(* enumeration, which is what shows that the assertion of MC_OptGen can fail.    *)
+(*   "zero_path_is_args"  sub_args answers the zero path with the whole argument *)
+(*                        expression: (a (q) ARGS) -> ARGS                        *)
+(*   "compose_reversed"   (f P) / (r P) put the new step above the steps of P     *)
+(*   "constant_in_env"    the constant rule also folds terms that read the        *)
+(*                        environment                                             *)
 EXTENDS Clvm
+CONSTANT Variant
 
 Unk == <<"unk">>
 IsOp(v, b) == IsAtom(v) /\ BytesOf(v) = <<b>>
@@ -64,7 +75,8 @@ BytesOfSteps(steps) ==
 RECURSIVE WalkExpr(_, _, _)
 WalkExpr(steps, i, acc) == IF i > Len(steps) THEN acc ELSE WalkExpr(steps, i + 1, IF steps[i] = 0 THEN ConsF(acc) ELSE ConsR(acc))
 PathFromArgs(v, newargs) ==
-  IF IsAtom(v) THEN (IF IsZeroPath(BytesOf(v)) THEN Nil ELSE WalkExpr(PathBits(BytesOf(v)), 1, newargs))
+  IF IsAtom(v) THEN (IF IsZeroPath(BytesOf(v)) THEN (IF Variant = "zero_path_is_args" THEN newargs ELSE Nil)
+                     ELSE WalkExpr(PathBits(BytesOf(v)), 1, newargs))
   ELSE newargs
 RECURSIVE SubArgs(_, _), SubArgsList(_, _)
 SubArgsList(items, newargs) == IF items = <<>> THEN <<>> ELSE <<SubArgs(items[1], newargs)>> \o SubArgsList(Tail(items), newargs)
@@ -84,7 +96,7 @@ RuleCons(r) ==
 
 RuleConstant(r) ==
   IF IsPair(r) /\ IsOp(First(r), 1) THEN Ok(r)
-  ELSE IF SeemsConstant(r) /\ NonNil(r)
+  ELSE IF (SeemsConstant(r) \/ (Variant = "constant_in_env" /\ IsPair(r) /\ ~IsOp(First(r), 8))) /\ NonNil(r)
        THEN LET v == Eval(r, Nil, 40) IN
             IF v[1] = "ok" THEN Ok(Cons(A(<<1>>), v[2])) ELSE IF v[1] = "err" THEN Err ELSE Unk
        ELSE Ok(r)
@@ -95,10 +107,12 @@ RulePath(r) ==
   IF IsUnary(r, 5) /\ IsAtom(First(Rest(r))) THEN
        LET p == BytesOf(First(Rest(r))) IN
        \* (the zero path composes to the plain step: compose_paths(0, 2) = 2)
-       Ok(A(BytesOfSteps((IF IsZeroPath(p) THEN <<>> ELSE PathBits(p)) \o <<0>>)))
+       LET st == IF IsZeroPath(p) THEN <<>> ELSE PathBits(p) IN
+       Ok(A(BytesOfSteps(IF Variant = "compose_reversed" THEN <<0>> \o st ELSE st \o <<0>>)))
   ELSE IF IsUnary(r, 6) /\ IsAtom(First(Rest(r))) THEN
        LET p == BytesOf(First(Rest(r))) IN
-       Ok(A(BytesOfSteps((IF IsZeroPath(p) THEN <<>> ELSE PathBits(p)) \o <<1>>)))
+       LET st == IF IsZeroPath(p) THEN <<>> ELSE PathBits(p) IN
+       Ok(A(BytesOfSteps(IF Variant = "compose_reversed" THEN <<1>> \o st ELSE st \o <<1>>)))
   ELSE Ok(r)
 
 RuleQuoteNull(r) == IF r = Cons(A(<<1>>), Nil) THEN Ok(Nil) ELSE Ok(r)
